@@ -279,6 +279,109 @@ def circumcentre(repo: Repo) -> RuleRun:
 
 circumcentre.rule_id = "C08.CIRCUMCENTRE"
 
+def reflex_decision(repo: Repo) -> RuleRun:
+    """'...the circle through the three points ON THE SIDE OF THE GIVEN POINT': arc_length_3point computes the included angle
+    from the end points alone (arccos: the minor angle) and then decides whether the arc is the reflex one. That decision is a sign
+    test on products of the radius vectors; it is followed here in exact rational arithmetic (sa/poly.py) for three points with
+    rational coordinates on a circle in general position: the arc start -> given point -> end of sweep alpha, the given point at
+    theta along it. The minor angle must be replaced by 2*pi - angle exactly when alpha > pi - wherever the given point lies
+    on the arc (a test that looks at only one of the two turns start->given, given->end is right for half the positions)."""
+    import math
+    from fractions import Fraction
+
+    from ..poly import Poly, Rat, Vec, eval_alg
+
+    r = RuleRun(PROP, "C08.REFLEX-DECISION", floor=40, what="arc_length_3point takes the reflex angle exactly when the arc through the given point sweeps more than pi: sign tests evaluated exactly on rational circle points, given point anywhere along the arc, both senses of rotation")
+    r.exhaustive = True
+    fn = repo.func("util.functions.arc_length_3point")
+    r.require(len(fn.params) == 3, "arc_length_3point no longer takes three points")
+    flips = [st for st in fn.node.body if isinstance(st, ast.If) and not any(isinstance(x, ast.Raise) for x in ast.walk(st))]
+    r.require(len(flips) == 1 and not flips[0].orelse, "arc_length_3point: the one 'if <reflex>: angle = 2*pi - angle' statement is not recognised")
+    flip = flips[0]
+
+    def const(x) -> Rat:
+        return Rat(Poly.const(Fraction(x)))
+
+    # a rational rotation (from the unit quaternion (1,2,3,4)/sqrt(30) -> matrix entries over 30), radius 3/7, centre (2, -5/3, 1/9)
+    ROT = [[Fraction(-20, 30), Fraction(4, 30), Fraction(22, 30)], [Fraction(20, 30), Fraction(-10, 30), Fraction(20, 30)], [Fraction(10, 30), Fraction(28, 30), Fraction(4, 30)]]
+    CEN = [Fraction(2), Fraction(-5, 3), Fraction(1, 9)]
+    RAD = Fraction(3, 7)
+
+    def point(t: Fraction, sense: int) -> Vec:
+        x, y = (1 - t * t) / (1 + t * t), sense * 2 * t / (1 + t * t)
+        return Vec(const(CEN[i] + RAD * (ROT[i][0] * x + ROT[i][1] * y)) for i in range(3))
+
+    def angle_of(t: Fraction) -> float:
+        return math.degrees(2 * math.atan(float(t))) % 360
+
+    TS = [Fraction(1, 3), Fraction(1, 2), Fraction(1), Fraction(2), Fraction(3), Fraction(5), Fraction(-5), Fraction(-3), Fraction(-2), Fraction(-1), Fraction(-1, 2), Fraction(-1, 3)]
+
+    def truth(test: ast.expr, env) -> bool:
+        if isinstance(test, ast.BoolOp):
+            vals = [truth(v, env) for v in test.values]
+            return all(vals) if isinstance(test.op, ast.And) else any(vals)
+        if isinstance(test, ast.UnaryOp) and isinstance(test.op, ast.Not):
+            return not truth(test.operand, env)
+        if isinstance(test, ast.Compare) and len(test.ops) == 1:
+            a, b = eval_alg(test.left, env), eval_alg(test.comparators[0], env)
+            if isinstance(a, Rat) and isinstance(b, Rat):
+                d = a - b
+                if d.num.is_const() and d.den.is_const() and d.den.terms:
+                    v = (d.num.terms.get((), Fraction(0))) / d.den.terms[()]
+                    op = test.ops[0]
+                    if isinstance(op, ast.Lt):
+                        return v < 0
+                    if isinstance(op, ast.LtE):
+                        return v <= 0
+                    if isinstance(op, ast.Gt):
+                        return v > 0
+                    if isinstance(op, ast.GtE):
+                        return v >= 0
+        raise AnalysisError(f"arc_length_3point: the reflex test '{ast.unparse(test)[:80]}' is not a sign test over vector algebra")
+
+    wrong = {}
+    n = 0
+    for sense in (1, -1):
+        for te in TS:
+            alpha = angle_of(te)
+            for tb in TS:
+                theta = angle_of(tb)
+                if not theta < alpha - 1:
+                    continue
+                env = {fn.params[0]: point(Fraction(0), sense), fn.params[1]: point(tb, sense), fn.params[2]: point(te, sense)}
+                for st in fn.node.body:
+                    if st is flip:
+                        break
+                    if isinstance(st, ast.Assign) and len(st.targets) == 1 and isinstance(st.targets[0], ast.Name):
+                        try:
+                            env[st.targets[0].id] = eval_alg(st.value, env)
+                        except AnalysisError:
+                            env.pop(st.targets[0].id, None)
+                got = truth(flip.test, env)
+                n += 1
+                want = alpha > 180
+                label = f"sweep {alpha:.0f} deg ({'reflex' if want else 'minor'}), given point at {theta:.0f} deg, {'counter-' if sense > 0 else ''}clockwise"
+                if got != want:
+                    wrong[label] = got
+                else:
+                    r.ok(fn, f"{label}: {'reflex angle' if got else 'minor angle'}", key=f"arc:{sense}:{alpha:.0f}:{theta:.0f}")
+    if wrong:
+        shown = sorted(wrong.items())
+        r.bad(
+            fn,
+            f"arc_length_3point: the decision '{ast.unparse(flip.test)[:100]}' is wrong for {len(wrong)} of {n} arcs, e.g. "
+            + "; ".join(f"{label} -> {'reflex' if got else 'minor'} angle" for label, got in (shown[0], shown[len(shown) // 2], shown[-1]))
+            + ": the length returned is that of the arc on the OTHER side of the chord, not of the circle through the three points on the side of the given point",
+            flip,
+            key="reflex-decision",
+        )
+    r.require(n >= 40, f"only {n} arcs examined")
+    return r
+
+
+reflex_decision.rule_id = "C08.REFLEX-DECISION"
+
+
 def adjust_only_when_needed(repo: Repo) -> RuleRun:
     """'An arc given by origin (with flatness 1 and an equidistant origin) ... lies on the circle the specification describes':
     arc_from_origin moves the given centre only when the origin is NOT equidistant from the end points or a flatness other than 1
@@ -360,4 +463,14 @@ def validity_tolerance(repo: Repo, prop: str = PROP, rule: str = "C08.VALIDITY-T
 
 validity_tolerance.rule_id = "C08.VALIDITY-TOLERANCE"
 
-RULES = [trig_domain, arg_pairing, affine_kinds, sign_flows, circumcentre, adjust_only_when_needed, validity_tolerance]
+def no_memo(repo: Repo) -> RuleRun:
+    """'the arc written is the arc of the vertices as they stand': the converted arc point is recomputed, not memoised. Same rule as C16.NO-MEMO."""
+    from ..report import rebrand
+    from . import c16
+
+    return rebrand(c16.no_memo(repo), PROP, "C08.NO-MEMO")
+
+
+no_memo.rule_id = "C08.NO-MEMO"
+
+RULES = [trig_domain, arg_pairing, affine_kinds, sign_flows, circumcentre, reflex_decision, adjust_only_when_needed, validity_tolerance, no_memo]
